@@ -138,6 +138,8 @@ func capSize() int64 {
 // ---------------------------------------------------------------------------------------------
 // watchdog (C17: every operation terminates)
 
+var lastProgress atomic.Int64
+
 var (
 	wdDeadline atomic.Int64 // unix nanos; 0 = disarmed
 	wdCurrent  atomic.Value // description of the running call (Ev)
@@ -153,6 +155,10 @@ func startWatchdog() {
 	go func() {
 		for {
 			time.Sleep(50 * time.Millisecond)
+			if lp := lastProgress.Load(); lp != 0 && time.Now().UnixNano()-lp > int64(60*time.Second) && wdDeadline.Load() == 0 {
+				// the harness itself is stuck in a library call it made outside a logged call
+				wdDeadline.Store(1)
+			}
 			d := wdDeadline.Load()
 			if d != 0 && time.Now().UnixNano() > d {
 				// the running call did not return: record it and stop the process
@@ -216,6 +222,7 @@ func invoke(desc Ev, f func()) (ci callInfo) {
 		f()
 	}()
 	wdDeadline.Store(0)
+	lastProgress.Store(time.Now().UnixNano())
 	ci.Cmps = cmpCalls() - c0
 	ci.Out = int(capSize() - before)
 	return
